@@ -57,6 +57,9 @@ def main():
     ap.add_argument("--props", default="")
     ap.add_argument("--tier", default="quick")
     ap.add_argument("-v", action="store_true")
+    ap.add_argument("--write-index", action="store_true",
+                    help="write seeded/INDEX.json (which check detects which seed); used by "
+                         "the thorough tier as a regression corpus")
     a = ap.parse_args()
     props = [p for p in a.props.split(",") if p] or implemented()
     dirs = a.dirs or sorted(os.path.join(VERIF, "seeded", d)
@@ -65,24 +68,43 @@ def main():
     dirs = [d for d in dirs if os.path.exists(os.path.join(d, "patch.diff"))]
     with ThreadPoolExecutor(max_workers=8) as ex:
         results = list(ex.map(lambda d: run_one(d, props, a.tier), dirs))
+    index = {}
     for (name, res), d in zip(results, dirs):
         meta = {}
         try:
             meta = json.load(open(os.path.join(d, "meta.json")))
         except Exception:  # noqa: BLE001
             pass
-        breaks = meta.get("breaks") or meta.get("property") or "?"
+        breaks = meta.get("breaks") if "breaks" in meta else (meta.get("property") or "?")
         if "_" in res:
             print(f"{name:14s} breaks={breaks} {res['_']}")
             continue
         viol = [p for p, (rc, _l) in res.items() if rc == 1]
         err = [p for p, (rc, _l) in res.items() if rc == 2]
+        rules = {}
+        for p, (rc, lines) in res.items():
+            if rc == 1:
+                rules[p] = sorted({ln.split("[")[1].split("]")[0] for ln in lines
+                                   if ln.startswith("FINDING") and "[" in ln})
+        index[name] = {"breaks": breaks if isinstance(breaks, list) else [breaks],
+                       "detected_by": viol, "rules": rules, "errors": err}
         print(f"{name:14s} breaks={breaks}  VIOLATION:{','.join(viol) or '-'}"
               f"  ERROR:{','.join(err) or '-'}")
         if a.v:
             for p, (rc, lines) in res.items():
                 for ln in lines:
                     print("      ", p, ln[:220])
+    if a.write_index:
+        if a.dirs:      # partial run: merge into the existing index
+            try:
+                old = json.load(open(os.path.join(VERIF, "seeded", "INDEX.json")))
+            except Exception:  # noqa: BLE001
+                old = {}
+            old.update(index)
+            index = old
+        with open(os.path.join(VERIF, "seeded", "INDEX.json"), "w") as f:
+            json.dump(index, f, indent=1, sort_keys=True)
+        print("wrote seeded/INDEX.json")
     return 0
 
 
